@@ -1,0 +1,10 @@
+//go:build !verif
+// +build !verif
+
+package leanhelix
+
+// Verification hooks are compiled out unless the build tag "verif" is set (see verif_on.go).
+
+func verifWorkerIdle(lh *WorkerLoop)                            {}
+func verifMainIdle(m *MainLoop)                                 {}
+func verifMainEvent(m *MainLoop, ev string, h uint64, v uint64) {}
